@@ -59,8 +59,9 @@ def rel(a, b):
     return float(np.max(np.where(s > 0, d / np.where(s > 0, s, 1), 0)))
 
 
-def one_settings(ctx, c, pairs_stride=1, offset=0):
+def one_settings(ctx, c, pairs_stride=1, offset=0, history=()):
     apply_settings(c)
+    hist = [dict(pop=h['pop'], kcals=h['kcals'], fat=h['fat'], protein=h['protein']) for h in history]
     s = dict(pop=c["pop"], kcals=c["kcals"], fat=c["fat"], protein=c["protein"])
     triples = list(itertools.product(RU.KCAL_UNITS, RU.MASS_UNITS, RU.MASS_UNITS))
     default = (c["pop"], c["kcals"], c["fat"], c["protein"]) == (7.8e9, 2100.0, 47.0, 51.0)
@@ -74,7 +75,7 @@ def one_settings(ctx, c, pairs_stride=1, offset=0):
                 if (k + offset) % pairs_stride:
                     continue
                 ctx.count()
-                case = dict(kind="conv", settings=s, vals=c["vals"], n=c["n"], form=form, src=list(src), dst=list(dst))
+                case = dict(kind="conv", settings=s, vals=c["vals"], n=c["n"], form=form, src=list(src), dst=list(dst), history=hist)
                 with quiet():
                     b = a.in_units(*dst)
                 exp_lab = [u + SUFFIX[form] for u in dst]
@@ -106,13 +107,13 @@ def one_settings(ctx, c, pairs_stride=1, offset=0):
                 r = max(rel(x, y) for x, y in zip(arr(via), vb))
                 if r > 1e-11:
                     ctx.fail("conversion-through-intermediate-differs", "%r -> %r -> %r differs by %.3g" % (src, mid, dst, r), case)
-    anchors_and_helpers(ctx, c, s)
+    anchors_and_helpers(ctx, c, s, hist)
 
 
-def anchors_and_helpers(ctx, c, s):
+def anchors_and_helpers(ctx, c, s, hist=()):
     from src.food_system.food import Food
     P, K, F, Pr = s["pop"], s["kcals"], s["fat"], s["protein"]
-    case = dict(kind="anchor", settings=s, vals=c["vals"], n=c["n"])
+    case = dict(kind="anchor", settings=s, vals=c["vals"], n=c["n"], history=list(hist))
     need = Food(P * K * 30 / 1e9, P * F * 30 / 1e9, P * Pr * 30 / 1e9, "billion kcals per month", "thousand tons per month", "thousand tons per month")
     with quiet():
         pf = need.in_units_percent_fed()
@@ -166,9 +167,19 @@ def shard(ctx):
 
     @hypothesis.seed(ctx.seed * 7919 + 13)
     @hyp_settings(40 if thorough else 3, shrink=False)
-    @given(settings_case())
-    def run(c):
+    @given(settings_case(), st.lists(st.tuples(st.floats(10, 200), st.floats(10, 200), st.booleans()), min_size=2, max_size=2))
+    def run(c, followups):
         body(c)
+        # the settings are process-wide and are changed between runs: re-establish them with only SOME of the four numbers changed
+        # (same population and energy need, other fat / protein need; or only the population changed) and convert again
+        hist = [c]
+        for fat, protein, keep_pop in followups:
+            c2 = dict(c, fat=fat, protein=protein)
+            if not keep_pop:
+                c2["pop"] = c["pop"] * 1.5
+            one_settings(ctx, c2, pairs_stride=stride * 40, offset=ctx.shard, history=hist)
+            hist = hist + [c2]
+            ctx.event("settings_changed_partially")
     try:
         run()
     except Violation as v:
@@ -177,6 +188,11 @@ def shard(ctx):
 
 def replay(case, ctx):
     c = dict(case["settings"], vals=case["vals"], n=case["n"])
+    for h in case.get("history", []):
+        # re-create the history of process-wide settings, converting once under each so that anything cached is cached
+        hc = dict(h, vals=case["vals"], n=case["n"])
+        apply_settings(hc)
+        mk(("billion kcals", "thousand tons", "thousand tons"), "total", hc).in_units("percent people fed", "percent people fed", "percent people fed")
     apply_settings(c)
     if case["kind"] == "anchor":
         anchors_and_helpers(ctx, c, case["settings"])
